@@ -153,11 +153,26 @@ CONSTANT Quads,      \* Cases: set of quadrature names, e.g. {"t4", "g3"}
 
 CaseInit == /\ c \in { [ gi |-> gi, kind |-> k ] : gi \in 1..Len(Grids), k \in 1..3 }
             /\ g = <<>> /\ x = <<>> /\ y = <<>> /\ stage = 0 /\ ji = 0
+\* the case grid.  Base block: every combination, face dimension last, numpy data, UxDataArray.integrate.
+\* Extension blocks (smaller): the face dimension FIRST, dask-backed data, and UxDataset.integrate on a
+\* dataset holding the one variable.
+CaseRec(ls, dt, q, pv, p, lay, sto, api) ==
+    [ gi |-> c.gi, kind |-> c.kind, lead |-> ls, dtype |-> dt, quad |-> q, prev |-> pv, pat |-> p,
+      layout |-> lay, storage |-> sto, api |-> api ]
+AllLeads == LeadShapes \cup { << Grids[c.gi].nf >> }          \* also a square table: lead length = n_face
 CaseNext == /\ DOMAIN c = {"gi", "kind"} /\ UNCHANGED <<g, x, y, stage, ji>>
-            /\ c' \in { [ gi |-> c.gi, kind |-> c.kind, lead |-> ls, dtype |-> dt, quad |-> q, prev |-> pv, pat |-> p ] :
-                           ls \in LeadShapes \cup { << Grids[c.gi].nf >> },   \* also a square table: lead length = n_face
-                           dt \in Dtypes, q \in Quads, pv \in Prevs,
-                           p \in (IF c.kind = 1 THEN Patterns ELSE {"ramp"}) }     \* non-face arrays need no data variety
+            /\ c' \in
+                 { CaseRec(ls, dt, q, pv, p, "last", "numpy", "dataarray") :
+                       ls \in AllLeads, dt \in Dtypes, q \in Quads, pv \in Prevs,
+                       p \in (IF c.kind = 1 THEN Patterns ELSE {"ramp"}) }     \* non-face arrays need no data variety
+                 \cup { CaseRec(ls, dt, q, "none", p, "first", "numpy", "dataarray") :
+                       ls \in AllLeads \ { <<>> }, dt \in {"float64", "int64"}, q \in Quads,
+                       p \in (IF c.kind = 1 THEN {"ramp", "mixed"} ELSE {"ramp"}) }
+                 \cup { CaseRec(ls, dt, q, "none", "ramp", "last", "dask", "dataarray") :
+                       ls \in AllLeads, dt \in {"float64", "int64"}, q \in Quads }
+                 \cup { CaseRec(ls, dt, q, "none", p, "last", "numpy", "dataset") :
+                       ls \in { <<>>, <<2>>, << Grids[c.gi].nf >> }, dt \in {"float64", "int64"}, q \in Quads,
+                       p \in (IF c.kind = 1 THEN {"ramp", "ones"} ELSE {"ramp"}) }
 CaseFull == "pat" \in DOMAIN c
 CaseArr ==
     LET gr == Grids[c.gi]
@@ -165,21 +180,35 @@ CaseArr ==
         n  == SizeOf(gr, d)
         L  == Prod(c.lead)
     IN [ name |-> "var_" \o c.pat,
-         dims |-> [ k \in 1..Len(c.lead) |-> LeadNames[k] ] \o <<d>>,
+         dims |-> IF c.layout = "last" THEN [ k \in 1..Len(c.lead) |-> LeadNames[k] ] \o <<d>>
+                  ELSE <<d>> \o [ k \in 1..Len(c.lead) |-> LeadNames[k] ],
          data |-> [ l \in 1..L |-> [ e \in 1..n |-> AsDtype(Pattern(c.pat, l, e), c.dtype) ] ] ]
 \* expected result; the areas are symbolic, so the expected values are the coefficient rows themselves
+\* With the face dimension last the property promises the value.  With the face dimension elsewhere the
+\* array is still face-centred BY NAME; the property speaks of "leading dimensions", so an implementation
+\* may decline ("ValueOrRejected") -- but if it returns, it must have removed exactly the face dimension
+\* and summed over faces, never over another axis of the same length.
+HasFaceDim(da) == \E k \in 1..Len(da.dims) : da.dims[k] = "n_face"
+WithoutFace(dims) == SelectSeq(dims, LAMBDA d : d # "n_face")
 CaseExpected ==
     LET da == CaseArr IN
     IF FaceCentred(da)
     THEN [ outcome |-> "Value", dims |-> Front(da.dims), name |-> da.name, shape |-> c.lead, coeff |-> da.data ]
+    ELSE IF HasFaceDim(da)
+    THEN [ outcome |-> "ValueOrRejected", dims |-> WithoutFace(da.dims), name |-> da.name, shape |-> c.lead, coeff |-> da.data ]
     ELSE [ outcome |-> "Rejected" ]
 \* a coincident-size case: the size-based dispatch would accept what the specification rejects
 CaseCoincident == LET gr == Grids[c.gi] IN c.kind # 1 /\ SizeOf(gr, Kinds[c.kind]) = gr.nf
-CaseSound == CaseFull => (CaseExpected.outcome = "Value" <=> c.kind = 1)
+CaseSound == CaseFull => /\ (CaseExpected.outcome = "Rejected" <=> c.kind # 1)
+                        /\ (CaseExpected.outcome = "Value" <=> (c.kind = 1 /\ c.layout = "last"))
+                        /\ (CaseExpected.outcome # "Rejected" => CaseExpected.dims \o <<"n_face">> = CaseArr.dims
+                                                                \/ <<"n_face">> \o CaseExpected.dims = CaseArr.dims)
+CaseSquare == Len(c.lead) >= 1 /\ c.lead[Len(c.lead)] = Grids[c.gi].nf
 CaseEmit == CaseFull => PrintT(<<"K", [ grid |-> Grids[c.gi].id, kind |-> Kinds[c.kind], lead |-> c.lead, dtype |-> c.dtype,
                                         quad |-> c.quad, prev |-> c.prev, pat |-> c.pat, dims |-> CaseArr.dims,
+                                        layout |-> c.layout, storage |-> c.storage, api |-> c.api, square |-> CaseSquare,
                                         name |-> CaseArr.name, table |-> CaseArr.data,
-                                        parts |-> IF c.pat = "lin" /\ c.dtype # "bool" /\ c.kind = 1
+                                        parts |-> IF c.pat = "lin" /\ c.dtype # "bool" /\ c.kind = 1 /\ c.layout = "last" /\ c.api = "dataarray"
                                                   THEN << LinA, LinB,
                                                           [ l \in 1..Prod(c.lead) |-> [ e \in 1..Grids[c.gi].nf |-> Pattern("ramp", l, e) ] ],
                                                           [ l \in 1..Prod(c.lead) |-> [ e \in 1..Grids[c.gi].nf |-> Pattern("mixed", l, e) ] ] >>
@@ -198,19 +227,24 @@ JInit == /\ ji \in { -b : b \in 1..((Len(Recs) + Block - 1) \div Block) }
 JNext == ji < 0 /\ ji' \in { k \in 1..Len(Recs) : (k - 1) \div Block = (-ji) - 1 } /\ UNCHANGED <<g, x, y, stage, c>>
 Within12(q) == q[1] <= 10          \* x <= 1e-12
 Has(r, k) == k \in DOMAIN r
+\* r.api = "dataset": UxDataset.integrate returns bare numbers (no dims, name or grid to judge)
 JClauses(r) ==
     LET e == r.expected
         value == e.outcome = "Value"
+        got   == e.outcome # "Rejected" /\ ~r.raised          \* a value came back where one is possible
+        uxda  == r.api = "dataarray"
     IN
-    [ RejectsNonFace     |-> ~value => r.raised,
+    [ RejectsNonFace     |-> e.outcome = "Rejected" => r.raised,
       ReturnsValue       |-> value => ~r.raised,
-      DropsExactlyFaceDim |-> (value /\ ~r.raised) => (r.dims = e.dims /\ r.shape = e.shape),
-      KeepsName          |-> (value /\ ~r.raised) => r.name = e.name,
-      KeepsGrid          |-> (value /\ ~r.raised) => (r.is_uxda /\ r.same_grid),
-      WeightedSum        |-> (value /\ ~r.raised) => Within12(r.q),
-      LinearInData       |-> (value /\ ~r.raised /\ Has(r, "qlin")) => Within12(r.qlin),
-      OneGivesTotalArea  |-> (value /\ ~r.raised /\ Has(r, "qone")) => Within12(r.qone) ]
+      DropsExactlyFaceDim |-> got => (r.shape = e.shape /\ (uxda => r.dims = e.dims)),
+      KeepsName          |-> (got /\ uxda) => r.name = e.name,
+      KeepsGrid          |-> (got /\ uxda) => (r.is_uxda /\ r.same_grid),
+      WeightedSum        |-> got => Within12(r.q),
+      LinearInData       |-> (got /\ Has(r, "qlin")) => Within12(r.qlin),
+      OneGivesTotalArea  |-> (got /\ Has(r, "qone")) => Within12(r.qone) ]
 JFailed(r) == LET cl == JClauses(r) IN { k \in DOMAIN cl : ~cl[k] }
 Judge == ji > 0 => LET r == Recs[ji]  fl == JFailed(r) IN
-                  fl = {} \/ PrintT(<<"V", r.id, fl, IF r.coincident THEN "coincident-size" ELSE "distinct-size">>)
+                  fl = {} \/ PrintT(<<"V", r.id, fl, IF r.coincident THEN "coincident-size" ELSE "distinct-size",
+                                       [ api |-> r.api, layout |-> r.layout, storage |-> r.storage,
+                                         square |-> r.square ]>>)
 =============================================================================
